@@ -334,6 +334,28 @@ func init() {
 		outside: append([]string{"scripts longer than 3 calls, more than one extension, misuse in more than the first generation (the second generation only stalls or exits)", "wall-clock time, goroutine leaks, memory", "HTTP-level misuse (malformed requests, slow bodies): handlers are called with well-formed requests"}, orchOutside...)})
 }
 
+func init() {
+	pkgRC := modulePath + "/lambda/rapidcore"
+	c08 := []*harnessSpec{
+		orch(pkgRC, "VerifC08Settled", 1, "differential, no extension: 6 prefixes {healthy+reset, runtime exit, timeout, init error then exit, response-then-exit + reset, init crash then timeout} x 4 suffixes {healthy, exit, stall, function error; then healthy}: per-generation state after the reset and all suffix observations equal those of a fresh instance that was reset at once", "prefix-0", "prefix-1", "prefix-2", "prefix-3", "prefix-4", "prefix-5", "suffix-0", "suffix-1", "suffix-2", "suffix-3", "done"),
+		orch(pkgRC, "VerifC08SettledExt", 0, "as above with one extension subscribed to INVOKE+SHUTDOWN (base schedule)", "prefix-3", "suffix-1", "done"),
+		orch(pkgRC, "VerifC08Late", 1, "the exit notification of the first SIGKILLed process of the prefix is handled late: when the next invocation has begun / has reached its runtime / has ended (3 phases) x 6 prefixes x 4 suffixes; caller outcomes and platform events equal those of the reference", "prefix-2", "suffix-2", "done"),
+		orch(pkgRC, "VerifC08LateExt", 0, "late notification, one extension (base schedule)", "done"),
+	}
+	c08t := []*harnessSpec{
+		orch(pkgRC, "VerifC08Settled", 2, "", "done"),
+		orch(pkgRC, "VerifC08SettledExt", 1, "", "done"),
+		orch(pkgRC, "VerifC08Late", 2, "", "done"),
+		orch(pkgRC, "VerifC08LateExt", 1, "", "done"),
+	}
+	for _, h := range c08t {
+		h.maxPaths = 1500000
+	}
+	checkRegistry = append(checkRegistry, &checkSpec{id: "C08", level: "other", quick: c08, thorough: c08t,
+		assume: append([]string{"reference = a freshly started instance that is reset at once (a fresh instance without reset runs its first init in phase 'init' instead of 'invoke', which is not a trace of anything)", "observations: caller outcome (error value, number of writes, own body or platform error type), platform event sequence, runtime / extension views, supervisor requests per process; generation numbers removed, request ids replaced by order of appearance", "state compared after the reset: registrations, agents, barrier arrivals/cancellation/errors, first fatal error, runtime release, error trace data, initDone, shuttingDown, cached init error response, reservation, pending DONE; NOT compared: Server.invoker (overwritten by every Reserve before use), Server.runtimeState (read by no decision), agentsAwaitingExit (keyed by per-generation names), gate counts (set at every init)", "late notification = the fake supervisor posts the exit event of a killed process only when a chosen phase of the next invocation is reached"}, orchAssume...),
+		outside: append([]string{"prefixes longer than one invocation (two for init failures), suffixes longer than two", "notifications arriving between the end of shutdown() and the generation increment (no synchronisation operation in between: not a scheduling point of the engine)", "telemetry/logs subscription state (not enabled in the emulator)"}, orchOutside...)})
+}
+
 // expiry: timers are not restricted to quiescence (the harness switches them with verifRaceTimers)
 func expiry(h *harnessSpec) *harnessSpec { h.maximalProgress = false; return h }
 
